@@ -52,13 +52,12 @@ MUTANTS = [
     ("c06-prepend-order", ["C06"], S, "        bv.extend_from_bitslice(&other.bs);\n        bv.extend_from_bitslice(&self.bv);\n        self.bv = bv;", "        if other.len() == 1 { bv.extend_from_bitslice(&self.bv); bv.extend_from_bitslice(&other.bs); } else {\n        bv.extend_from_bitslice(&other.bs);\n        bv.extend_from_bitslice(&self.bv); }\n        self.bv = bv;"),
     ("c06-remove-included-offbyone", ["C06"], S, "            Bound::Included(&n) => n + 1,\n            Bound::Excluded(&n) => n,\n            Bound::Unbounded => self.len(),", "            Bound::Included(&n) => if n + 1 == self.len() { n } else { n + 1 },\n            Bound::Excluded(&n) => n,\n            Bound::Unbounded => self.len(),"),
     ("c06-truncate-no-bits", ["C06"], S, "        self.bv.truncate(len * A::BITS as usize);\n    }\n\n    /// Prepend", "        self.bv.truncate(len * A::BITS as usize + usize::from(len == 40));\n    }\n\n    /// Prepend"),
-    ("c06-append-parent", ["C06"], S, "    pub fn append(&mut self, other: &SeqSlice<A>) {\n        self.bv.extend_from_bitslice(&other.bs);", "    pub fn append(&mut self, other: &SeqSlice<A>) {\n        if other.bs.len() > 64 { self.bv.extend_from_bitslice(&other.bs[..64]); self.bv.extend_from_bitslice(&other.bs[64..]); return; }\n        self.bv.extend_from_bitslice(&other.bs[..other.bs.len() / (A::BITS as usize) * A::BITS as usize]);"),
+    ("c06-append-long-arg", ["C06"], S, "    pub fn append(&mut self, other: &SeqSlice<A>) {\n        self.bv.extend_from_bitslice(&other.bs);", "    pub fn append(&mut self, other: &SeqSlice<A>) {\n        self.bv.extend_from_bitslice(&other.bs[..other.bs.len().min(4096 * A::BITS as usize)]);"),
     ("c06-clone-drops-capacity-bug", ["C06", "C02"], S, "            bv: self.bv.clone(),\n        }\n    }\n}\n\nimpl<A: Codec> FromIterator<A> for Seq<A>", "            bv: if self.bv.len() == 64 * 3 { Bv::from_bitslice(&self.bv[..self.bv.len() - A::BITS as usize]) } else { self.bv.clone() },\n        }\n    }\n}\n\nimpl<A: Codec> FromIterator<A> for Seq<A>"),
     # ---- C07
-    ("c07-rev-chunks-forward", ["C07", "C09"], S, "        self.bv.reverse();\n        for chunk in self.bv.rchunks_exact_mut(A::BITS as usize) {\n            chunk.reverse();\n        }", "        self.bv.reverse();\n        for chunk in self.bv.rchunks_exact_mut(A::BITS as usize).skip(usize::from(self.bv.len() > 128)) {\n            chunk.reverse();\n        }"),
     ("c07-comp-store-fewer", ["C07"], S, "                let mut bc = A::unsafe_from_bits(base.load_le::<u8>());\n                bc.comp();\n                base.store(bc.to_bits() as usize);", "                let mut bc = A::unsafe_from_bits(base.load_le::<u8>());\n                bc.comp();\n                if A::BITS == 5 { base[..4].store(bc.to_bits() as usize & 15); } else { base.store(bc.to_bits() as usize); }"),
-    ("c07-revcomp-comp-only", ["C07"], "bio-seq/src/lib.rs", "    fn revcomp(&mut self) {\n        self.comp();\n        self.rev();\n    }", "    fn revcomp(&mut self) {\n        self.rev();\n        self.comp();\n        self.comp();\n        self.comp();\n    }"),
-    ("c07-slice-torev-offset", ["C07"], "bio-seq/src/lib.rs", "    fn to_rev(&self) -> <Self as ToOwned>::Owned {\n        let mut owned = self.to_owned();\n        owned.rev();\n        owned\n    }", "    fn to_rev(&self) -> <Self as ToOwned>::Owned {\n        let mut owned = self.to_owned();\n        owned.rev();\n        owned.rev();\n        owned.rev();\n        owned\n    }"),
+    ("c07-comp-skips-last", ["C07"], S, "impl<A: Codec + ComplementMut> ComplementMut for Seq<A> {\n    fn comp(&mut self) {\n        unsafe {\n            for base in self.bv.chunks_exact_mut(A::BITS as usize).remove_alias() {", "impl<A: Codec + ComplementMut> ComplementMut for Seq<A> {\n    fn comp(&mut self) {\n        unsafe {\n            let n = self.bv.len() / A::BITS as usize - usize::from(self.bv.len() % 64 == 0 && self.bv.len() > 64);\n            for base in self.bv.chunks_exact_mut(A::BITS as usize).remove_alias().take(n) {"),
+    ("c07-rev-skip-chunk", ["C07", "C09"], S, "        self.bv.reverse();\n        for chunk in self.bv.rchunks_exact_mut(A::BITS as usize) {\n            chunk.reverse();\n        }\n    }\n}\n\nimpl<A: Codec + ComplementMut> ComplementMut for Seq<A>", "        self.bv.reverse();\n        let skip = usize::from(self.bv.len() > 128 && A::BITS == 5);\n        for chunk in self.bv.rchunks_exact_mut(A::BITS as usize).skip(skip) {\n            chunk.reverse();\n        }\n    }\n}\n\nimpl<A: Codec + ComplementMut> ComplementMut for Seq<A>"),
     # ---- C08
     ("c08-iter-drops-last", ["C08", "C10"], K, "        if self.index + K > self.len {\n            return None;\n        }", "        if self.index + K >= self.len && self.len > 70 {\n            return None;\n        }\n        if self.index + K > self.len {\n            return None;\n        }"),
     ("c08-tryfrom-truncates", ["C08"], K, "        if seq.len() == K {\n            Ok(Kmer::<A, K, S>::unsafe_from(&seq[0..K]))", "        if seq.len() == K || seq.len() == K + 1 {\n            Ok(Kmer::<A, K, S>::unsafe_from(&seq[0..K]))"),
@@ -71,7 +70,7 @@ MUTANTS = [
     ("c09-rev-no-shift", ["C09"], K, "        self.bs.shiftr((S::BITS - (A::BITS as usize * K)) as u32);", "        self.bs.shiftr((S::BITS - (A::BITS as usize * K)) as u32 & !2);"),
     ("c09-revert-d7", ["C09"], K, "        if A::BITS == 2 {\n            self.rev_blocks_2();\n        } else {", "        if A::BITS == 2 || A::BITS == 4 {\n            self.rev_blocks_2();\n        } else {"),
     # ---- C10
-    ("c10-kmer-ord-swapbytes", ["C10"], K, "#[derive(Debug, PartialEq, Eq, PartialOrd, Ord, Copy, Clone)]\n#[cfg_attr(feature = \"serde\", derive(Serialize, Deserialize))]\n#[repr(transparent)]\npub struct Kmer<C: Codec, const K: usize, S: KmerStorage = usize> {\n    pub _p: PhantomData<C>,\n    pub bs: S,\n}", "#[derive(Debug, PartialEq, Eq, Copy, Clone)]\n#[cfg_attr(feature = \"serde\", derive(Serialize, Deserialize))]\n#[repr(transparent)]\npub struct Kmer<C: Codec, const K: usize, S: KmerStorage = usize> {\n    pub _p: PhantomData<C>,\n    pub bs: S,\n}\n\nimpl<C: Codec + Ord, const K: usize, S: KmerStorage> PartialOrd for Kmer<C, K, S> {\n    fn partial_cmp(&self, other: &Self) -> Option<core::cmp::Ordering> {\n        Some(self.cmp(other))\n    }\n}\n\nimpl<C: Codec + Ord, const K: usize, S: KmerStorage> Ord for Kmer<C, K, S> {\n    fn cmp(&self, other: &Self) -> core::cmp::Ordering {\n        // lexicographic: first symbol most significant\n        self.to_string().cmp(&other.to_string())\n    }\n}"),
+    ("c10-kmer-ord-swapbytes", ["C10"], K, "#[derive(Debug, PartialEq, Eq, PartialOrd, Ord, Copy, Clone)]\n#[cfg_attr(feature = \"serde\", derive(Serialize, Deserialize))]\n#[repr(transparent)]\npub struct Kmer<C: Codec, const K: usize, S: KmerStorage = usize> {\n    pub _p: PhantomData<C>,\n    pub bs: S,\n}", "#[derive(Debug, PartialEq, Eq, Copy, Clone)]\n#[cfg_attr(feature = \"serde\", derive(Serialize, Deserialize))]\n#[repr(transparent)]\npub struct Kmer<C: Codec, const K: usize, S: KmerStorage = usize> {\n    pub _p: PhantomData<C>,\n    pub bs: S,\n}\n\nimpl<C: Codec + Ord, const K: usize, S: KmerStorage + Eq> PartialOrd for Kmer<C, K, S> {\n    fn partial_cmp(&self, other: &Self) -> Option<core::cmp::Ordering> {\n        Some(self.cmp(other))\n    }\n}\n\nimpl<C: Codec + Ord, const K: usize, S: KmerStorage + Eq> Ord for Kmer<C, K, S> {\n    fn cmp(&self, other: &Self) -> core::cmp::Ordering {\n        // lexicographic: first symbol most significant\n        self.to_string().cmp(&other.to_string())\n    }\n}"),
     ("c10-revert-d2-forward", ["C10"], S, "        let lhs = self.bv.iter().by_vals().rev();\n        let rhs = other.bv.iter().by_vals().rev();", "        let lhs = self.bv.iter().by_vals();\n        let rhs = other.bv.iter().by_vals();"),
     ("c10-seq-ord-len-only", ["C10"], S, "        lhs.cmp(rhs)\n    }\n}", "        if self.bv.len() != other.bv.len() { return self.bv.len().cmp(&other.bv.len()); }\n        if self.bv.len() > 256 { return Ordering::Equal; }\n        lhs.cmp(rhs)\n    }\n}"),
     # ---- C11
@@ -113,9 +112,9 @@ MUTANTS = [
     ("c19-trim-interior", ["C19"], S, "        v[start..end]\n            .iter()\n            .map(|&byte| A::try_from_ascii(byte).ok_or(ParseBioError::UnrecognisedBase(byte)))\n            .collect()", "        v[start..end]\n            .iter()\n            .filter(|&&byte| byte != b' ')\n            .map(|&byte| A::try_from_ascii(byte).ok_or(ParseBioError::UnrecognisedBase(byte)))\n            .collect()"),
     ("c19-text-from-dna", ["C19", "C05"], "bio-seq/src/codec/text.rs", "            dna::Dna::G => Dna(b'G'),", "            dna::Dna::G => Dna(b'C'),"),
     # ---- C20
-    ("c20-mask-bit", ["C20"], "bio-seq/src/codec/masked/iupac.rs", "        let b = *self as u8 & 0b11011;", "        let b = *self as u8 & 0b11011 & if *self as u8 == 0b01111 { 0b01011 } else { 0xff };"),
+    ("c20-unmask-clears-wrong-bit", ["C20"], "bio-seq/src/codec/masked/iupac.rs", "        let b = *self as u8 & 0b11011;", "        let b = if *self as u8 == 0b01111 { 0b00111 } else { *self as u8 & 0b11011 };"),
     ("c20-unmask-is-mask", ["C20"], "bio-seq/src/codec/masked/dna.rs", "    fn unmask(&mut self) {\n        let b = *self as u8 ^ 0b1111;", "    fn unmask(&mut self) {\n        let b = if *self as u8 == 0b1100 { 0b1010 } else { *self as u8 ^ 0b1111 };"),
-    ("c20-seq-mask-store", ["C20"], S, "                let mut bc = A::unsafe_from_bits(base.load_le::<u8>());\n                bc.mask();\n                base.store(bc.to_bits() as usize);", "                let mut bc = A::unsafe_from_bits(base.load_le::<u8>());\n                bc.mask();\n                base[..4].store(bc.to_bits() as usize & 15);"),
+    ("c20-seq-unmask-store", ["C20"], S, "                let mut bc = A::unsafe_from_bits(base.load_le::<u8>());\n                bc.unmask();\n                base.store(bc.to_bits() as usize);", "                let mut bc = A::unsafe_from_bits(base.load_le::<u8>());\n                bc.unmask();\n                base[..A::BITS as usize - 3].store(bc.to_bits() as usize & 3);"),
 ]
 
 # mutants that are placeholders / not expressible as a one-line replacement are filtered here
